@@ -497,3 +497,70 @@ pub fn run_sequences(gov: &str, topics: &[&str], max_len: usize, st: &mut Stats)
     }
   }
 }
+
+/// Two remote participants use the same writer EntityId: S for a topic whose submessages must be protected, O for
+/// an open topic; R's reader of the open topic has the smaller EntityId. A plain writer submessage of S addressed to
+/// ENTITYID_UNKNOWN must not reach the protected reader, and O's plain traffic for the open topic keeps flowing.
+pub fn run_entity_id_collision(gov: &str, protected_topic: &str, st: &mut Stats) {
+  let specs = [(protected_topic, false, Some((1u8, 2u8))), ("T_N_N", true, Some((1u8, 1u8)))];
+  let mut p = match Pipe::build(gov, &specs, false, true, true) {
+    Ok(p) => p,
+    Err(e) => {
+      st.problems.push(Problem { key: "C17:bring-up".into(), case: gov.into(), what: format!("bring-up (entity id collision) failed: {e}") });
+      return;
+    }
+  };
+  if !p.flows[0].r_attrs.is_submessage_protected || p.r.attrs.is_rtps_protected {
+    return; // the scenario is about submessage protection of a plain datagram
+  }
+  let mut sn = 500i64;
+  for kind in [Kind::Data, Kind::DataFrag, Kind::Heartbeat, Kind::Gap] {
+    sn += 1;
+    st.cases += 1;
+    st.must_block += 1;
+    let case = format!("{gov} {protected_topic} {kind:?} to ENTITYID_UNKNOWN, plain, another participant's writer with the same EntityId matched to an open reader");
+    let bytes = bytes_of(&plain(&p, 0, kind, sn, true, false));
+    let _ = p.observe();
+    let before = p.observe();
+    p.inject(&bytes);
+    st.injections += 1;
+    let after = p.observe();
+    if effect_on(&before, &after, &p, 0, kind) {
+      st.problems.push(Problem {
+        key: format!("C17:bypass:{kind:?}:EntityIdCollision"),
+        case,
+        what: "a plain submessage addressed to ENTITYID_UNKNOWN had an effect on the reader whose topic requires submessage protection".into(),
+      });
+    } else {
+      st.blocked += 1;
+    }
+    *st.classes.entry(format!("{kind:?} EntityIdCollision")).or_insert(0) += 1;
+    if after != before {
+      p.reset_reader(0, true);
+      p.reset_reader(1, true);
+    }
+  }
+  // the open topic of the other participant keeps flowing (explicit id and ENTITYID_UNKNOWN)
+  for unknown in [false, true] {
+    sn += 1;
+    st.cases += 1;
+    st.must_deliver += 1;
+    // built by hand: `plain` takes the sender prefix from S
+    let fl = &p.flows[1];
+    let cc = wire::cc_data(fl.w, sn, vec![sn as u8, 1, 2, 3]);
+    let rid = if unknown { EntityId::UNKNOWN } else { fl.r.entity_id };
+    let m = MessageBuilder::new().data_msg(&cc, rid, fl.w, LE, None).add_header_and_build(fl.w.prefix);
+    let before = p.cache(1).len();
+    p.inject(&bytes_of(&m));
+    st.injections += 1;
+    if p.cache(1).len() == before {
+      st.problems.push(Problem {
+        key: "C17:not-delivered:Data:unprotected-topic".into(),
+        case: format!("{gov} T_N_N of the other participant{}", if unknown { " to ENTITYID_UNKNOWN" } else { "" }),
+        what: "plain traffic for a topic that needs no protection did not arrive".into(),
+      });
+    } else {
+      st.delivered += 1;
+    }
+  }
+}
